@@ -643,7 +643,9 @@ func (w *World) FakeFilter(n *Node, kind string) (data []byte, hash chainhash.Ha
 		}
 	}
 	switch kind {
-	case "omit":
+	case "omit", "empty":
+		// ("empty": the filter with no entries at all, for a block that
+		// has such a script: the boundary case of an omission)
 		// scripts of non-coinbase outputs that are not also paid by
 		// the coinbase or spent (those would stay in the filter)
 		var cand []byte
@@ -667,6 +669,9 @@ func (w *World) FakeFilter(n *Node, kind string) (data []byte, hash chainhash.Ha
 			}
 		}
 		entries = kept
+		if kind == "empty" {
+			entries = nil
+		}
 	case "extra":
 		entries = append(entries, append([]byte{0x00, 0x14}, hash160(n.Hash[:])...))
 	}
